@@ -22,7 +22,7 @@ def gen(ctx, q):
         plan.append((len(L), "probe", (f, ch)))
         L.append("close 2")
         for mode in ("auto", "now"):
-            if q and hash((f, ch, mode, ctx.seed)) % 2:
+            if q and vlib.dhash((f, ch, mode, ctx.seed)) % 2:
                 continue
             L.append("open 0 0 w %x %d 8000" % (f, ch))
             if mode == "auto":
